@@ -64,3 +64,12 @@ Proof.
   - apply wf_msg; [apply example_msg_wf | apply example_msg_wf | vm_compute; reflexivity].
   - apply wf_bun; [lia | constructor | vm_compute; reflexivity].
 Qed.
+
+From RtoscV Require Import Osc.OscTotalProofs.
+Lemma witnesses_bytes_ok : bytes_ok d5b /\ bytes_ok d5c /\ zlen d5c < W32 - 16.
+Proof.
+  split; [|split].
+  - unfold bytes_ok, d5b. repeat constructor; lia.
+  - unfold bytes_ok, d5c, bundle_magic. cbn [app]. repeat constructor; lia.
+  - vm_compute. reflexivity.
+Qed.
